@@ -134,7 +134,8 @@ def _c06h_tasks(tier, seed):
 SPECIAL = {"iofault": _iofault_tasks, "c06h": _c06h_tasks}
 
 C08_SCENARIOS = ["dict_default", "dict_default_fresh", "dict_default_shorter", "dict_write_concern_nothreads",
-                 "attrdict_default", "dict_plain_nothreads", "list_two_saves", "buffered_backend", "buffered_objects",
+                 "attrdict_default", "dict_plain_nothreads", "dict_threads_enabled_after_construction",
+                 "dict_threads_disabled_after_construction", "list_two_saves", "buffered_backend", "buffered_objects",
                  "buffered_forced", "membuffered_backend", "membuffered_forced", "membuffered_objects"]
 
 
@@ -524,6 +525,9 @@ def replay(prop, path):
         base = c19.run_child(dict(numpy=ex["numpy"], repo=env.REPO, history=[], probes=ex["probes"] and sorted(ex["probes"])))
         got = c19.run_child(dict(numpy=ex["numpy"], repo=env.REPO, history=ex["history"], probes=ex["probes"]))
         a, b = base.get(ex["value"], {}).get(ex["probe"]), got.get(ex["value"], {}).get(ex["probe"])
+        if ex.get("analog"):
+            # a class created on the fly against the equivalent long-lived class, in the SAME run
+            a, b = c19._strip(got.get(ex["analog"], {}).get(ex["probe"])), c19._strip(b)
         if a != b:
             print("VIOLATION property=%s replay=%s" % (prop, path))
             print("  %s on %s: fresh %r, after %s: %r" % (ex["probe"], ex["value"], a, ex["history"], b))
